@@ -276,7 +276,7 @@ def _request(rng, lo, hi, small_bias=True, max_width=40):
         if intervals.intersect(used, cand):
             continue
         used = intervals.union(used, cand)
-        parts.append(str(a) if a == b else f"{a}-{b}")
+        parts.append((str(a) if rng.random() < 0.85 else f"{a}-{a}") if a == b else f"{a}-{b}")
     rng.shuffle(parts)
     return ",".join(parts)
 
